@@ -24,6 +24,8 @@ const (
 	KTuple
 	KArray // array value: Seq
 	KOther // unsupported (float, complex): opaque Int
+	KStrList // []string by value: SList
+	KStrArr  // [N]string: SList
 )
 
 func kindOf(t types.Type) Kind {
@@ -48,12 +50,18 @@ func kindOf(t types.Type) Kind {
 		}
 		return KPtr
 	case *types.Slice:
+		if b, ok := u.Elem().Underlying().(*types.Basic); ok && b.Info()&types.IsString != 0 {
+			return KStrList
+		}
 		return KSlice
 	case *types.Struct:
 		return KStruct
 	case *types.Tuple:
 		return KTuple
 	case *types.Array:
+		if b, ok := u.Elem().Underlying().(*types.Basic); ok && b.Info()&types.IsString != 0 {
+			return KStrArr
+		}
 		return KArray
 	case *types.Interface, *types.Map, *types.Chan, *types.Signature:
 		return KRef
@@ -71,6 +79,8 @@ func sortOfKind(k Kind) smt.Sort {
 		return smt.Seq
 	case KSlice:
 		return smt.Slice
+	case KStrList, KStrArr:
+		return smt.SList
 	}
 	return smt.Int
 }
@@ -84,6 +94,8 @@ const (
 	LField                 // non-struct field Key of struct Base
 	LElem                  // element Idx of backing array Base (heap "elems")
 	LGlobal                // global variable cell Key
+	LStrElem               // element Idx of the [N]string cell Base (heap "elemsS")
+	LListElem              // element Idx of the string list value Base (read-only)
 )
 
 type Loc struct {
@@ -91,6 +103,7 @@ type Loc struct {
 	Base *smt.Term
 	Key  string
 	Idx  *smt.Term
+	Off  *smt.Term // slice offset for LElem (nil = 0)
 	Elem types.Type
 }
 
